@@ -10,7 +10,7 @@ from harness.core import Outcome
 
 ID = "C13"
 LEAN_TARGETS = ["BeyondVerif.Props.C13", "BeyondVerif.Props.C13Parts", "BeyondVerif.Props.C13Opm", "BeyondVerif.Props.C13Omm",
-                "BeyondVerif.Props.C13Groups", "BeyondVerif.Witness.C13"]
+                "BeyondVerif.Props.C13Groups", "BeyondVerif.Props.C13Ext", "BeyondVerif.Witness.C13", "BeyondVerif.Witness.C13Ext"]
 THEOREMS = [
     "BeyondVerif.C13.recurseKids_group",
     "BeyondVerif.C13.iterGroup_promote",
@@ -41,6 +41,16 @@ THEOREMS = [
     "BeyondVerif.C13.oem_covs_xml_group",
     "BeyondVerif.C13.obs_xml_roundtrip",
     "BeyondVerif.C13.observations_xml_roundtrip",
+    "BeyondVerif.C13.stamp_roundtrip_same_scale",
+    "BeyondVerif.C13.stamp_instant_of_converting",
+    "BeyondVerif.C13.stamp_instant_roundtrip_partial",
+    "BeyondVerif.C13.man_ignition_tables",
+    "BeyondVerif.C13.thrust_window_roundtrip",
+    "BeyondVerif.C13.date_attr_shifts_window",
+    "BeyondVerif.C13W.mixed_scale_moves_instant",
+    "BeyondVerif.C13W.oem_xml_noncartesian_form",
+    "BeyondVerif.C13W.opm_keplerian_maneuver_lost",
+    "BeyondVerif.C13W.man_stop_dated_ok",
     "BeyondVerif.C13W.oem_xml_one_point_ok",
     "BeyondVerif.C13W.oem_kvn_one_point_ok",
     "BeyondVerif.C13W.oem_xml_two_points_ok",
@@ -149,7 +159,7 @@ def _state(rng):
     return st
 
 
-def _cov(rng):
+def _cov(rng, own="EME2000"):
     if rng.random() < 0.5:
         return None
     a = [[rng.gauss(0, 1) * (30.0 if i < 3 else 0.03) for i in range(6)] for _ in range(6)]
@@ -157,23 +167,70 @@ def _cov(rng):
     if rng.random() < 0.15:
         i, j = rng.randrange(6), rng.randrange(6)
         m[i][j] = m[j][i] = 0.0
-    return {"frame": rng.choice(["own", "own", "QSW", "TNW"]), "vals": m}
+    return {"frame": rng.choice(["own", "own", "QSW", "TNW", "QSW", "TNW", "own-by-name", rng.choice([f for f in FRAMES if f != own])]), "vals": m}
 
 
-def _mans(rng, epoch, kmax=3):
+MAN_KINDS = ["I", "C"] * 7 + ["KI", "KC"]
+DATE_POS = ["start", "start", "median", "stop", "Median", "STOP"]
+
+
+def _other_scale(rng, scale):
+    return rng.choice([x for x in SCALES if x != scale])
+
+
+def _mans(rng, epoch, kmax=3, own="EME2000", scale="UTC"):
+    """every constructor option of ImpulsiveMan / ContinuousMan / Keplerian*Man: frame None / QSW / TNW (any case) / the orbit's own
+    frame by name / another inertial frame by name; comment absent / empty / one word / several words; continuous thrust given by dv
+    or by accel, dated by its start, median or stop; rarely a date labelled in another time scale than the orbit's"""
     k = rng.choice([0, 0, 1, 1, 2, kmax])
     out = []
     for i in range(k):
-        kind = rng.choice("IC")
-        out.append({
+        kind = rng.choice(MAN_KINDS)
+        cont = kind in ("C", "KC")
+        m = {
             "kind": kind,
             "epoch": epoch + rng.randrange(1, 10**5) * 10**6 + rng.randrange(10**6),
-            "dur_ms": 0 if kind == "I" else rng.choice([1, 1000, 180000, rng.randrange(1, 10**7)]),
-            "frame": rng.choice([None, "QSW", "TNW"]),
-            "comment": rng.choice([None, "Maneuver %d" % (i + 1), _name(rng)]),
+            "dur_ms": 0 if not cont else rng.choice([1, 1000, 180000, 500, 86400000, 172800250, rng.randrange(1, 10**7)]),
+            "date_pos": rng.choice(DATE_POS) if cont else "start",
+            "by": rng.choice(["dv", "dv", "accel"]) if kind == "C" else "dv",
+            "frame": rng.choice([None, None, "QSW", "TNW", "qsw", "tnw", own, own.lower(), rng.choice([f for f in FRAMES if f != own])]),
+            "comment": rng.choice([None, None, "", "Maneuver %d" % (i + 1), _name(rng), "apogee burn no. %d (planned)" % i]),
             "dv": [round(rng.uniform(-300, 300), rng.choice([0, 3, 6])) for _ in range(3)],
-        })
+            "scale": _other_scale(rng, scale) if rng.random() < 0.04 else None,
+        }
+        if kind in ("KI", "KC"):
+            m["frame"] = None
+            m["dkep"] = {"da": rng.choice([0.0, rng.uniform(-5e4, 5e4)]), "di": rng.choice([0.0, rng.uniform(-0.01, 0.01)]),
+                         "dOmega": rng.choice([0.0, rng.uniform(-0.01, 0.01)])}
+            if not any(m["dkep"].values()):
+                m["dkep"]["da"] = 1000.0
+        out.append(m)
     return out
+
+
+def _ud_key(rng):
+    """names as the CCSDS examples have them: several words joined by underscores, digits, also lower case"""
+    word = lambda: "".join(rng.choice("ABCDEFGHIJKLMNOPQRSTUVWXYZ") for _ in range(rng.randint(1, 6)))
+    r = rng.random()
+    if r < 0.3:
+        c = word()
+    elif r < 0.55:
+        c = "_".join(word() for _ in range(rng.randint(2, 4)))                      # EARTH_MODEL
+    elif r < 0.7:
+        c = word() + "_" + str(rng.randint(0, 99)) + rng.choice(["", "_" + word()])    # TANK_1_MASS
+    elif r < 0.8:
+        c = word() + str(rng.randint(0, 9))
+    elif r < 0.9:
+        c = rng.choice(["USER_DEFINED_X", "MAN_" + word(), "EPOCH", "X", "COMMENT_" + word(), "OBJECT_NAME", "CX_X_" + word()])
+    else:
+        c = _name(rng, spaces=False).replace("(", "").replace(")", "").replace("-", "_")
+        if not c[0].isalpha():
+            c = "K" + c
+    if rng.random() < 0.15:
+        c = c.lower()
+    elif rng.random() < 0.1:
+        c = c.title()
+    return c
 
 
 def _ud(rng):
@@ -185,17 +242,26 @@ def _ud(rng):
     k = 1 if r < 0.65 else rng.randint(2, 4)
     keys = []
     while len(keys) < k:
-        c = _name(rng, spaces=False).upper().replace("(", "").replace(")", "").replace("-", "_")
-        if c and c not in keys and c[0].isalpha():
+        c = _ud_key(rng)
+        if c and c not in keys:
             keys.append(c)
-    return {c: _name(rng) for c in keys}
+    if k > 1 and rng.random() < 0.3:
+        keys[1] = keys[0] + "_" + str(rng.randint(1, 9))          # one name a prefix of the other
+    return {c: rng.choice([_name(rng), "%.3f" % rng.uniform(-100, 100), "WGS-84", _name(rng) + " " + _name(rng, False)]) for c in keys}
+
+
+FORMS = ["cartesian", "cartesian", "keplerian", "spherical", "keplerian_mean", "equinoctial", "cylindrical"]
+FORMS_OEM = ["cartesian"] * 8 + ["keplerian", "spherical"]
 
 
 def gen_opm(rng):
     ep = _epoch(rng)
-    return {"type": "opm", "name": _name(rng), "id": _name(rng), "frame": rng.choice(FRAMES), "scale": rng.choice(SCALES),
-            "epoch": ep, "state": _state(rng), "kep": rng.random() < 0.7, "cov": _cov(rng), "mans": _mans(rng, ep),
-            "ud": _ud(rng), "as_orbit": rng.random() < 0.3, "meta_by_kwargs": rng.random() < 0.2}
+    frame, scale = rng.choice(FRAMES), rng.choice(SCALES)
+    return {"type": "opm", "name": _name(rng), "id": _name(rng), "frame": frame, "scale": scale,
+            "epoch": ep, "state": _state(rng), "kep": rng.random() < 0.7, "cov": _cov(rng, frame), "mans": _mans(rng, ep, own=frame, scale=scale),
+            "ud": _ud(rng), "as_orbit": rng.random() < 0.3, "meta_by_kwargs": rng.random() < 0.2,
+            "form": rng.choice(FORMS), "no_meta": rng.random() < 0.07, "originator": rng.choice([None, None, "CNES", "my agency"]),
+            "prop": rng.choice(["Kepler", "J2", "none"])}
 
 
 def gen_omm(rng):
@@ -206,7 +272,9 @@ def gen_omm(rng):
                       math.radians(rng.uniform(0, 359.9)), math.radians(rng.uniform(0, 359.9)), rng.uniform(1.0, 16.5) * 2 * math.pi / 86400.0],
             "bstar": rng.uniform(-1e-3, 1e-3), "ndot": rng.uniform(-1e-4, 1e-4), "ndotdot": rng.choice([0.0, 0.0, rng.uniform(-1e-9, 1e-9)]),
             "norad_id": rng.randint(1, 99999), "revolutions": rng.randint(0, 99999), "element_nb": rng.randint(0, 9999),
-            "cov": _cov(rng), "ud": _ud(rng), "via_tle": rng.random() < 0.5}
+            "cov": _cov(rng, "TEME"), "ud": _ud(rng), "via_tle": rng.random() < 0.5,
+            "classification": rng.choice([None, None, "U", "C"]), "ephemeris_type": rng.choice([None, None, 0, 2]),
+            "no_meta": rng.random() < 0.05}
 
 
 def gen_oem(rng, nseg=None):
@@ -218,17 +286,20 @@ def gen_oem(rng, nseg=None):
         step = rng.choice([1, 60, 180, 3600]) * 10**6 + rng.choice([0, 0, 1, 250000])
         ncov = rng.choice([0, 0, 1, 1, 2, n])
         covidx = set(rng.sample(range(n), min(ncov, n)))
+        frame, scale = rng.choice(FRAMES), rng.choice(SCALES)
+        odd = rng.randrange(n) if n > 1 and step >= 180 * 10**6 and rng.random() < 0.08 else None     # one point labelled in another time scale
         pts = []
         for i in range(n):
             c = None
             if i in covidx:
                 c = None
                 while c is None:
-                    c = _cov(rng)
-            pts.append({"epoch": ep + i * step, "state": _state(rng), "cov": c})
+                    c = _cov(rng, frame)
+            pts.append({"epoch": ep + i * step, "state": _state(rng), "cov": c, "scale": _other_scale(rng, scale) if i == odd and i > 0 else None})
         method = rng.choice(["lagrange", "lagrange", "linear"])
-        segs.append({"name": _name(rng), "id": _name(rng), "frame": rng.choice(FRAMES), "scale": rng.choice(SCALES),
-                     "method": method, "order": rng.choice([None, 2, 5, 8, 11]), "points": pts})
+        segs.append({"name": _name(rng), "id": _name(rng), "frame": frame, "scale": scale,
+                     "method": method, "order": rng.choice([None, 2, 5, 8, 11]), "points": pts,
+                     "form": rng.choice(FORMS_OEM), "no_meta": rng.random() < 0.07})
     return {"type": "oem", "segs": segs, "as_list": nseg > 1 or rng.random() < 0.3}
 
 
@@ -236,10 +307,12 @@ def gen_tdm(rng, doppler=None):
     npath = rng.choice([1, 1, 2])
     paths = []
     for _ in range(npath):
-        a, b = _name(rng, False), _name(rng, False)
+        a, b, c = _name(rng, False), _name(rng, False), _name(rng, False)
         while b == a:
             b = _name(rng, False)
-        paths.append(rng.choice([[a, b, a], [a, b], [a, b, a]]))
+        while c in (a, b):
+            c = _name(rng, False)
+        paths.append(rng.choice([[a, b, a], [a, b], [a, b, a], [a, b, c], [a, b, c, a], [a, b, a, c]]))
     kinds_all = ["Range", "Azimut", "Elevation"]
     if doppler is None:
         doppler = rng.random() < 0.1
@@ -257,10 +330,12 @@ def gen_tdm(rng, doppler=None):
         nn = n if pi == 0 else rng.choice([1, 2, 3])
         for i in range(nn):
             for kd in (kinds if nn > 1 or rng.random() < 0.5 else kinds[:1]):
-                val = {"Range": rng.uniform(3e5, 8e7), "Azimut": rng.uniform(-math.pi, math.pi),
+                val = {"Range": rng.uniform(3e5, 8e7), "Azimut": rng.choice([rng.uniform(-math.pi, math.pi), rng.uniform(-2 * math.pi, 2 * math.pi), 0.0]),
                        "Elevation": rng.uniform(0, math.pi / 2), "Doppler": rng.uniform(-7000, 7000)}[kd]
-                obs.append({"kind": kd, "path": pi, "epoch": ep + i * 5 * 10**6, "value": val})
-    return {"type": "tdm", "scale": scale, "paths": paths, "obs": obs}
+                obs.append({"kind": kd, "path": pi, "epoch": ep + i * 5 * 10**6, "value": val, "scale": None})
+    if len(obs) > 1 and rng.random() < 0.04:
+        obs[rng.randrange(1, len(obs))]["scale"] = _other_scale(rng, scale)      # one date labelled in another time scale
+    return {"type": "tdm", "scale": scale, "paths": paths, "obs": obs, "by_list": rng.random() < 0.3}
 
 
 def gen_omm_checked(rng):
@@ -288,20 +363,38 @@ def _mk_cov(orb, c):
     from beyond.orbits.cov import Cov
     if c is None:
         return None
-    return Cov(orb, c["vals"], orb.frame if c["frame"] == "own" else c["frame"])
+    fr = {"own": orb.frame, "own-by-name": orb.frame.name}.get(c["frame"], c["frame"])
+    return Cov(orb, c["vals"], fr)
 
 
 def _mk_mans(spec, scale):
     from beyond.dates import timedelta
-    from beyond.orbits.man import ImpulsiveMan, ContinuousMan
+    from beyond.orbits.man import ImpulsiveMan, ContinuousMan, KeplerianImpulsiveMan, KeplerianContinuousMan
     out = []
     for m in spec:
-        d = _date(m["epoch"], scale)
-        if m["kind"] == "I":
+        d = _date(m["epoch"], m.get("scale") or scale)
+        kind = m["kind"]
+        if kind == "I":
             out.append(ImpulsiveMan(d, list(m["dv"]), frame=m["frame"], comment=m["comment"]))
+        elif kind == "KI":
+            out.append(KeplerianImpulsiveMan(d, comment=m["comment"], **m["dkep"]))
+        elif kind == "KC":
+            out.append(KeplerianContinuousMan(d, timedelta(milliseconds=m["dur_ms"]), date_pos=m.get("date_pos", "start"), comment=m["comment"], **m["dkep"]))
         else:
-            out.append(ContinuousMan(d, timedelta(milliseconds=m["dur_ms"]), dv=list(m["dv"]), frame=m["frame"], comment=m["comment"]))
+            dur = timedelta(milliseconds=m["dur_ms"])
+            kw = {"dv": list(m["dv"])} if m.get("by", "dv") == "dv" else {"accel": [x / dur.total_seconds() for x in m["dv"]]}
+            out.append(ContinuousMan(d, dur, frame=m["frame"], comment=m["comment"], date_pos=m.get("date_pos", "start"), **kw))
     return out
+
+
+def _propagator(name):
+    if name == "J2":
+        from beyond.propagators.j2 import J2
+        return J2()
+    if name == "none":
+        return None
+    from beyond.propagators.kepler import Kepler
+    return Kepler()
 
 
 def build(spec):
@@ -310,15 +403,18 @@ def build(spec):
     t = spec["type"]
     kw = {}
     if t == "opm":
-        meta = {} if spec["meta_by_kwargs"] else {"name": spec["name"], "cospar_id": spec["id"]}
+        meta = {} if spec["meta_by_kwargs"] or spec.get("no_meta") else {"name": spec["name"], "cospar_id": spec["id"]}
         if spec["meta_by_kwargs"]:
             kw.update(name=spec["name"], cospar_id=spec["id"])
+        if spec.get("originator"):
+            kw["originator"] = spec["originator"]
         d = _date(spec["epoch"], spec["scale"])
         if spec["as_orbit"]:
-            from beyond.propagators.kepler import Kepler
-            o = Orbit(spec["state"], d, "cartesian", spec["frame"], Kepler(), **meta)
+            o = Orbit(spec["state"], d, "cartesian", spec["frame"], _propagator(spec.get("prop", "Kepler")), **meta)
         else:
             o = StateVector(spec["state"], d, "cartesian", spec["frame"], **meta)
+        if spec.get("form", "cartesian") != "cartesian":
+            o.form = spec["form"]
         if spec["cov"]:
             o.cov = _mk_cov(o, spec["cov"])
         o.maneuvers = _mk_mans(spec["mans"], spec["scale"])
@@ -330,6 +426,12 @@ def build(spec):
         d = _date(spec["epoch"], spec["scale"])
         data = dict(bstar=spec["bstar"], ndot=spec["ndot"], ndotdot=spec["ndotdot"], norad_id=spec["norad_id"],
                     revolutions=spec["revolutions"], element_nb=spec["element_nb"], name=spec["name"], cospar_id=spec["id"])
+        if spec.get("classification") is not None:
+            data["classification_type"] = spec["classification"]
+        if spec.get("ephemeris_type") is not None:
+            data["ephemeris_type"] = spec["ephemeris_type"]
+        if spec.get("no_meta") and not spec["via_tle"]:
+            del data["name"]
         o = Orbit(spec["elems"], d, "TLE", "TEME", "Sgp4", **data)
         if spec["via_tle"]:
             from beyond.io.tle import Tle
@@ -344,21 +446,28 @@ def build(spec):
         ephs = []
         for s in spec["segs"]:
             pts = []
+            meta = {} if s.get("no_meta") else {"name": s["name"], "cospar_id": s["id"]}
             for p in s["points"]:
-                sv = StateVector(p["state"], _date(p["epoch"], s["scale"]), "cartesian", s["frame"], name=s["name"], cospar_id=s["id"])
+                sv = StateVector(p["state"], _date(p["epoch"], p.get("scale") or s["scale"]), "cartesian", s["frame"], **meta)
+                if s.get("form", "cartesian") != "cartesian":
+                    sv.form = s["form"]
                 if p["cov"]:
                     sv.cov = _mk_cov(sv, p["cov"])
                 pts.append(sv)
             e = Ephem(pts, method=s["method"], order=s["order"])
-            e.name = s["name"]
-            e.cospar_id = s["id"]
+            if not s.get("no_meta"):
+                e.name = s["name"]
+                e.cospar_id = s["id"]
             ephs.append(e)
         return (ephs if spec["as_list"] else ephs[0]), kw
     if t == "tdm":
         from beyond.utils import measures
+        lst = [getattr(measures, ob["kind"])(spec["paths"][ob["path"]], _date(ob["epoch"], ob.get("scale") or spec["scale"]), ob["value"]) for ob in spec["obs"]]
+        if spec.get("by_list"):
+            return measures.MeasureSet(lst), kw
         ms = measures.MeasureSet()
-        for ob in spec["obs"]:
-            ms.append(getattr(measures, ob["kind"])(spec["paths"][ob["path"]], _date(ob["epoch"], spec["scale"]), ob["value"]))
+        for m in lst:
+            ms.append(m)
         return ms, kw
     raise ValueError(t)
 
@@ -368,6 +477,11 @@ def build(spec):
 def _us(date):
     td = date.datetime - T0
     return (td.days * 86400 + td.seconds) * 10**6 + td.microseconds
+
+
+def _tai(date):
+    """the instant: microseconds of the TAI clock (public API: change_scale)"""
+    return _us(date if date.scale.name == "TAI" else date.change_scale("TAI"))
 
 
 def _fname(fr):
@@ -384,20 +498,43 @@ def _canon_cov(orb):
 
 def _canon_sv(o):
     c = o.copy(form="cartesian")
-    return {"epoch": _us(o.date), "scale": o.date.scale.name, "frame": o.frame.name, "center": o.frame.center.name,
+    return {"epoch": _us(o.date), "scale": o.date.scale.name, "tai": _tai(o.date), "frame": o.frame.name, "center": o.frame.center.name,
             "state": [float(x) for x in c.base], "cov": _canon_cov(c)}
 
 
+def _man_frame(m, own):
+    """`None` and the orbit's own frame by name are the same thing (man.py treats every non-local frame as the orbit's)"""
+    fr = getattr(m, "frame", None)
+    if fr is None:
+        return None
+    fr = _fname(fr)
+    return None if fr == own else fr
+
+
 def _canon_mans(o):
+    """what the property lists for a maneuver — epoch = start of the thrust window, duration, end of the window, delta-v, frame,
+    comment — plus its *effect*: the velocity increment it applies to the orbit it is attached to, in the orbit's frame (this is what
+    delta-v + frame mean together, and the only thing a Keplerian maneuver has)"""
     from beyond.orbits.man import ContinuousMan
+    import numpy as np
     out = []
+    own = o.frame.name
+    cart = o.copy(form="cartesian")
     for m in getattr(o, "maneuvers", []) or []:
-        if isinstance(m, ContinuousMan):
-            out.append({"kind": "C", "epoch": _us(m.start), "scale": m.start.scale.name, "dur": m.duration.total_seconds(),
-                        "frame": m.frame if m.frame is None else _fname(m.frame), "comment": m.comment, "dv": [float(x) for x in m._dv]})
-        else:
-            out.append({"kind": "I", "epoch": _us(m.date), "scale": m.date.scale.name, "dur": 0.0,
-                        "frame": m.frame if m.frame is None else _fname(m.frame), "comment": m.comment, "dv": [float(x) for x in m._dv]})
+        cont = isinstance(m, ContinuousMan)
+        d0 = m.start if cont else m.date
+        dur = m.duration.total_seconds() if cont else 0.0
+        try:
+            eff = (np.array(m.accel(cart)) * dur) if cont else np.array(m.dv(cart))
+            eff = [float(x) for x in eff]
+        except Exception as e:        # pragma: no cover
+            eff = "%s" % type(e).__name__
+        dv = getattr(m, "_dv", None)
+        kep = hasattr(m, "da")
+        out.append({"kind": "C" if cont else "I", "epoch": _us(d0), "scale": d0.scale.name, "tai": _tai(d0), "dur": dur,
+                    "stop": _tai(m.stop) if cont else _tai(d0),
+                    "frame": "TNW" if kep else _man_frame(m, own), "comment": m.comment or None,
+                    "dv": None if kep or dv is None else [float(x) for x in dv], "effect": eff, "kepl": kep})
     return out
 
 
@@ -436,7 +573,7 @@ def canon(obj, spec=None, kw=None):
         obs = []
         for s in sets:
             for m in s:
-                obs.append({"kind": type(m).__name__, "path": list(m.path), "epoch": _us(m.date), "scale": m.date.scale.name, "value": float(m.value)})
+                obs.append({"kind": type(m).__name__, "path": list(m.path), "epoch": _us(m.date), "scale": m.date.scale.name, "tai": _tai(m.date), "value": float(m.value)})
         return {"type": "tdm", "obs": obs}
     return {"type": "unknown:" + type(obj).__name__}
 
@@ -465,10 +602,22 @@ def _cmp_cov(a, b, where, diffs):
                 return
 
 
-def _cmp_sv(a, b, where, diffs):
-    if abs(a["epoch"] - b["epoch"]) > TOL["epoch"]:
-        diffs.append((where + "epoch", a["epoch"], b["epoch"]))
-    for k in ("scale", "frame", "center"):
+def _cmp_epoch(a, b, where, diffs, main_scale=None):
+    """epoch to the microsecond in the same time scale.  `main_scale`: the TIME_SYSTEM of the message (scale of the object's own
+    date); a secondary date the user labelled in another scale cannot keep its label (one TIME_SYSTEM per message) but must
+    still be the same instant"""
+    if main_scale is None or a["scale"] == main_scale:
+        if a["scale"] != b["scale"]:
+            diffs.append((where + "scale", a["scale"], b["scale"]))
+        if abs(a["epoch"] - b["epoch"]) > TOL["epoch"]:
+            diffs.append((where + "epoch", a["epoch"], b["epoch"]))
+    elif abs(a["tai"] - b["tai"]) > TOL["epoch"]:
+        diffs.append((where + "instant", f"{a['epoch']} {a['scale']}", f"{b['epoch']} {b['scale']} ({(b['tai'] - a['tai']) / 1e6:+.6f} s)"))
+
+
+def _cmp_sv(a, b, where, diffs, main_scale=None):
+    _cmp_epoch(a, b, where, diffs, main_scale)
+    for k in ("frame", "center"):
         if a[k] != b[k]:
             diffs.append((where + k, a[k], b[k]))
     if "state" in a:
@@ -497,15 +646,19 @@ def compare(a, b):
             diffs.append(("mans.len", len(a["mans"]), len(b["mans"])))
         else:
             for i, (m, n) in enumerate(zip(a["mans"], b["mans"])):
-                for k in ("kind", "scale", "frame", "comment"):
+                for k in ("kind", "frame", "comment"):
                     if m[k] != n[k]:
                         diffs.append((f"man.{k}", m[k], n[k]))
-                if abs(m["epoch"] - n["epoch"]) > TOL["epoch"]:
-                    diffs.append(("man.epoch", m["epoch"], n["epoch"]))
+                _cmp_epoch(m, n, "man.", diffs, a["scale"])
                 if abs(m["dur"] - n["dur"]) > TOL["dur"] * 0.5000001:
                     diffs.append(("man.dur", m["dur"], n["dur"]))
-                if any(abs(x - y) > TOL["dv"] * 0.5000001 for x, y in zip(m["dv"], n["dv"])):
+                # the thrust window [start, stop): its end too (1 us on the start + 0.5 ms on the duration)
+                if abs((m["stop"] - m["tai"]) - (n["stop"] - n["tai"])) > TOL["dur"] * 0.5000001 * 1e6 + 2:
+                    diffs.append(("man.stop", m["stop"], n["stop"]))
+                if m["dv"] is not None and n["dv"] is not None and any(abs(x - y) > TOL["dv"] * 0.5000001 for x, y in zip(m["dv"], n["dv"])):
                     diffs.append(("man.dv", m["dv"], n["dv"]))
+                if isinstance(m["effect"], str) or isinstance(n["effect"], str) or any(abs(x - y) > TOL["dv"] for x, y in zip(m["effect"], n["effect"])):
+                    diffs.append(("man.effect", m["effect"], n["effect"]))
     if t == "omm":
         for i in range(6):
             x, y = a["elems"][i], b["elems"][i]
@@ -530,20 +683,23 @@ def compare(a, b):
             if len(s["points"]) != len(r["points"]):
                 diffs.append(("points.len", len(s["points"]), len(r["points"])))
                 continue
+            main = s["points"][0]["scale"] if s["points"] else None
             for p, q in zip(s["points"], r["points"]):
-                _cmp_sv(p, q, "point.", diffs)
+                _cmp_sv(p, q, "point.", diffs, main)
                 for k in ("name", "id"):
-                    if p[k] != q[k]:
+                    if p[k] is not None and p[k] != q[k]:
                         diffs.append((f"point.{k}", p[k], q[k]))
     if t == "tdm":
         if len(a["obs"]) != len(b["obs"]):
             return [("obs.len", len(a["obs"]), len(b["obs"]))]
+        main = {}
+        for p in a["obs"]:
+            main.setdefault(tuple(p["path"]), p["scale"])         # one segment (one TIME_SYSTEM) per path
         for p, q in zip(a["obs"], b["obs"]):
-            for k in ("kind", "path", "scale"):
+            for k in ("kind", "path"):
                 if p[k] != q[k]:
                     diffs.append((f"obs.{k}", p[k], q[k]))
-            if abs(p["epoch"] - q["epoch"]) > TOL["epoch"]:
-                diffs.append(("obs.epoch", p["epoch"], q["epoch"]))
+            _cmp_epoch(p, q, "obs.", diffs, main[tuple(p["path"])])
             dv = abs(p["value"] - q["value"])
             if p["kind"] == "Azimut":
                 dv = min(dv, abs(dv - 2 * math.pi))
@@ -607,12 +763,25 @@ def features(spec):
             f.append("no-tle")
         if t == "opm" and any(m["frame"] == "QSW" for m in spec["mans"]):
             f.append("man-qsw")
+    if t == "opm":
+        if any(m["kind"] in ("KI", "KC") for m in spec["mans"]):
+            f.append("man-kepl")
+        if any(m.get("scale") and m["scale"] != spec["scale"] for m in spec["mans"]):
+            f.append("mixed-scale")
+        if any(m.get("date_pos", "start").lower() != "start" for m in spec["mans"]):
+            f.append("man-date-pos")
     if t == "oem":
         if any(len(s["points"]) == 1 for s in spec["segs"]):
             f.append("points1")
         if any(sum(1 for p in s["points"] if p["cov"]) == 1 for s in spec["segs"]):
             f.append("cov1")
+        if any(s.get("form", "cartesian") != "cartesian" for s in spec["segs"]):
+            f.append("form-noncart")
+        if any(p.get("scale") and p["scale"] != s["scale"] for s in spec["segs"] for p in s["points"]):
+            f.append("mixed-scale")
     if t == "tdm":
+        if any(o.get("scale") and o["scale"] != spec["scale"] for o in spec["obs"]):
+            f.append("mixed-scale")
         for pi in range(len(spec["paths"])):
             if sum(1 for o in spec["obs"] if o["path"] == pi) == 1:
                 f.append("obs1")
@@ -648,6 +817,17 @@ def classify(raw, feats):
         ("tdm-xml-load:CcsdsError@tdm._loads_xml", "doppler", "tdm-doppler-not-read"),
         ("tdm-kvn-load:KeyError@tdm._loads_kvn", "elev-no-az", "tdm-elevation-without-azimuth"),
         ("tdm-xml-load:UnboundLocalError@tdm._loads_xml", "elev-no-az", "tdm-elevation-without-azimuth"),
+        ("opm-kvn-restored:man.instant", "mixed-scale", "mixed-scale-epoch:opm.maneuver"),
+        ("opm-xml-restored:man.instant", "mixed-scale", "mixed-scale-epoch:opm.maneuver"),
+        ("oem-kvn-restored:point.instant", "mixed-scale", "mixed-scale-epoch:oem.point"),
+        ("oem-xml-restored:point.instant", "mixed-scale", "mixed-scale-epoch:oem.point"),
+        ("tdm-kvn-restored:obs.instant", "mixed-scale", "mixed-scale-epoch:tdm.observation"),
+        ("tdm-xml-restored:obs.instant", "mixed-scale", "mixed-scale-epoch:tdm.observation"),
+        ("opm-kvn-dump:AttributeError@opm._dumps_kvn", "man-kepl", "opm-keplerian-maneuver"),
+        ("opm-xml-dump:AttributeError@opm._dumps_xml", "man-kepl", "opm-keplerian-maneuver"),
+        ("opm-kvn-restored:man.effect", "man-kepl", "opm-keplerian-maneuver"),
+        ("opm-xml-restored:man.effect", "man-kepl", "opm-keplerian-maneuver"),
+        ("oem-xml-dump:AttributeError@oem._dumps_xml", "form-noncart", "oem-xml-dump-noncartesian-form"),
         ("tdm-redump-kvn:TypeError@commons.detect2dump", "paths2", "tdm-multi-path-reloads-as-list"),
         ("tdm-redump-xml:TypeError@commons.detect2dump", "paths2", "tdm-multi-path-reloads-as-list"),
     ]
@@ -976,6 +1156,41 @@ def read_tables():
                  "wrapOmmUd": "USER_DEFINED" in w["omm"], "wrapOemSegment": "segment" in w["oem"],
                  "wrapOemStateVector": "stateVector" in w["oem"], "wrapOemCov": "covarianceMatrix" in w["oem"],
                  "wrapTdmSegment": "segment" in w["tdm"], "wrapTdmObservation": "observation" in w["tdm"]}
+    # ---- Generated/CcsdsExtTables.lean: what the written dates mean, constructor options of the objects written
+    src = {f: open(os.path.join(CCSDS_DIR, f)).read() for f in ("opm.py", "oem.py", "tdm.py")}
+    t["scaleConv"] = {k: "change_scale" in src[k + ".py"] for k in ("opm", "oem", "tdm")}
+    # attribute of a ContinuousMan printed as MAN_EPOCH_IGNITION: `date = man.<attr>` under `isinstance(man, ContinuousMan)`,
+    # else the first element returned by the helper that holds that test
+    attrs = set()
+    for fn in [n for n in ast.walk(opm) if isinstance(n, ast.FunctionDef)]:
+        hits = [n for n in ast.walk(fn) if isinstance(n, ast.If) and "ContinuousMan" in ast.dump(n.test) and "isinstance" in ast.dump(n.test)]
+        if not hits or fn.name.startswith("_loads"):
+            continue
+        found = set()
+        for n in hits:
+            for b in n.body:
+                if isinstance(b, ast.Assign) and isinstance(b.targets[0], ast.Name) and b.targets[0].id == "date" and isinstance(b.value, ast.Attribute):
+                    found.add(b.value.attr)
+        if not found:
+            for n in ast.walk(fn):
+                if isinstance(n, ast.Return) and isinstance(n.value, ast.Tuple) and n.value.elts and isinstance(n.value.elts[0], ast.Attribute):
+                    found.add(n.value.elts[0].attr)
+        attrs |= found
+    if len(attrs) != 1:
+        raise RuntimeError(f"cannot tell which date of a ContinuousMan the OPM writers print: {sorted(attrs)}")
+    t["manIgnitionAttr"] = attrs.pop()
+    pos = set()
+    for f in ("_loads_kvn", "_loads_xml"):
+        for n in ast.walk(_func(opm, f)):
+            if isinstance(n, ast.Call) and getattr(n.func, "id", "") == "ContinuousMan":
+                kw = {k.arg: _const(k.value) for k in n.keywords}
+                pos.add(kw.get("date_pos", "start"))
+    if len(pos) != 1:
+        raise RuntimeError(f"OPM readers rebuild continuous maneuvers with different date_pos: {sorted(pos, key=str)}")
+    t["manReadDatePos"] = str(pos.pop())
+    conv = lambda fn: any(x in ast.get_source_segment(src["oem.py"], _func(oem, fn)) for x in ('.form = "cartesian"', 'form="cartesian"'))
+    t["oemKvnConvertsForm"], t["oemXmlConvertsForm"] = conv("_dumps_kvn"), conv("_dumps_xml")
+    t["opmWritesKeplerian"] = "dkep2dv" in src["opm.py"] or "Keplerian" in src["opm.py"].replace("Keplerian elements", "")
     # frames (live objects, through the writers' own expressions)
     from beyond.frames import get_frame
     ft = []
@@ -1014,7 +1229,20 @@ def extract(ctx):
         L.append(f"def {k} : Bool := {'true' if v else 'false'}")
     L.append("end BeyondVerif.Generated")
     ch = core.write_if_changed(os.path.join(core.LEAN, "BeyondVerif", "Generated", "CcsdsTables.lean"), "\n".join(L) + "\n")
-    return ["Generated/CcsdsTables.lean"] if ch else []
+    b = lambda v: "true" if v else "false"
+    E = ["/- GENERATED by harness/props/C13.py from beyond/io/ccsds/*.py (AST) — do not edit. -/",
+         "namespace BeyondVerif.Generated",
+         f"def opmManScaleConv : Bool := {b(t['scaleConv']['opm'])}",
+         f"def oemPointScaleConv : Bool := {b(t['scaleConv']['oem'])}",
+         f"def tdmObsScaleConv : Bool := {b(t['scaleConv']['tdm'])}",
+         f"def manIgnitionAttr : String := {json.dumps(t['manIgnitionAttr'])}",
+         f"def manReadDatePos : String := {json.dumps(t['manReadDatePos'])}",
+         f"def oemKvnConvertsForm : Bool := {b(t['oemKvnConvertsForm'])}",
+         f"def oemXmlConvertsForm : Bool := {b(t['oemXmlConvertsForm'])}",
+         f"def opmWritesKeplerian : Bool := {b(t['opmWritesKeplerian'])}",
+         "end BeyondVerif.Generated"]
+    ch2 = core.write_if_changed(os.path.join(core.LEAN, "BeyondVerif", "Generated", "CcsdsExtTables.lean"), "\n".join(E) + "\n")
+    return (["Generated/CcsdsTables.lean"] if ch else []) + (["Generated/CcsdsExtTables.lean"] if ch2 else [])
 
 
 # ---------------------------------------------------------------- correspondence: compiled model vs real dumps/loads
@@ -1138,18 +1366,105 @@ def corr_case(out, spec, via, kind):
     return lines, reals
 
 
+def _model_domain(spec):
+    """the structural model has no Keplerian maneuvers and no form of the points: those two options go through the `ext` operations"""
+    if spec["type"] == "opm":
+        spec["mans"] = [m for m in spec["mans"] if m["kind"] in ("I", "C")]
+    if spec["type"] == "oem":
+        for s in spec["segs"]:
+            s["form"] = "cartesian"
+    return spec
+
+
+def _sv0(scale="UTC", ep=7367 * 86400 * 10**6 + 123456, dx=0.0):
+    from beyond.orbits import StateVector
+    return StateVector([7.0e6 + dx, 1.0e5, -3.0e5, 10.0, 7500.0, 300.0], _date(ep, scale), "cartesian", "EME2000", name="SAT", cospar_id="2020-001A")
+
+
+def ext_cases(rng, n):
+    """(request line, reply of the real code) for the operations of Model/CcsdsExt.lean"""
+    from beyond.io.ccsds import dumps, loads
+    from beyond.dates import timedelta
+    from beyond.orbits import Ephem
+    from beyond.orbits.man import ImpulsiveMan, ContinuousMan, KeplerianImpulsiveMan, KeplerianContinuousMan
+    from beyond.utils.measures import MeasureSet, Range
+    out = []
+    ep = 7367 * 86400 * 10**6
+    for i in range(n):
+        fmt = "kvn" if i % 2 == 0 else "xml"
+        # thrust window of a continuous maneuver dated by its start / median / stop
+        pos = rng.choice(["start", "median", "stop"])
+        dur_ms = rng.choice([2, 1000, 180000, 240000, 2 * rng.randrange(1, 5 * 10**6)])
+        date = ep + rng.randrange(10**5) * 10**6 + rng.randrange(10**6)
+        sv = _sv0()
+        sv.maneuvers = [ContinuousMan(_date(date, "UTC"), timedelta(milliseconds=dur_ms), dv=[1.0, 2.0, 3.0], date_pos=pos)]
+        try:
+            m = loads(dumps(sv, fmt=fmt)).maneuvers[0]
+            real = f"{_us(m.start)} {_us(m.stop)}"
+        except Exception as e:
+            real = f"err {type(e).__name__}"
+        out.append((f"c13 ext window {date} {dur_ms * 1000} {pos}", real, {"op": "window", "fmt": fmt, "date": date, "dur_ms": dur_ms, "date_pos": pos}))
+        # a secondary date labelled in another scale than the message
+        msg, sc = rng.choice(SCALES), rng.choice(SCALES)
+        clock = ep + rng.randrange(10**5) * 10**6 + rng.randrange(10**6)
+        d = _date(clock, sc)
+        off_s, off_m = _us(d) - _tai(d), _us(d.change_scale(msg)) - _tai(d)
+        site = rng.choice(["opm", "oem", "tdm"])
+        try:
+            if site == "opm":
+                sv = _sv0(msg)
+                sv.maneuvers = [ImpulsiveMan(d, [1.0, 2.0, 3.0])]
+                back = loads(dumps(sv, fmt=fmt)).maneuvers[0].date
+            elif site == "oem":
+                e = Ephem([_sv0(msg, clock - 3600 * 10**6), _sv0(sc, clock, 5.0)])
+                back = loads(dumps(e, fmt=fmt))[1].date
+            else:
+                ms = MeasureSet([Range(["A", "B", "A"], _date(clock - 3600 * 10**6, msg), 1e6), Range(["A", "B", "A"], d, 2e6)])
+                back = loads(dumps(ms, fmt=fmt))[1].date
+            real = f"{_us(back)} {back.scale.name}"
+        except Exception as e:
+            real = f"err {type(e).__name__}"
+        out.append((f"c13 ext stamp {site} {msg} {sc} {clock} {off_s} {off_m}", real, {"op": "stamp", "site": site, "fmt": fmt, "msg": msg, "scale": sc, "clock": clock}))
+    for fmt in ("kvn", "xml"):
+        for form in FORMS[1:]:
+            pts = [_sv0("UTC", ep + k * 60 * 10**6, float(k)) for k in range(2)]
+            for p in pts:
+                p.form = form
+            try:
+                dumps(Ephem(pts), fmt=fmt)
+                real = "ok"
+            except Exception as e:
+                real = f"err dump {type(e).__name__}"
+            out.append((f"c13 ext form {fmt} {form}", real, {"op": "form", "fmt": fmt, "form": form}))
+        for k, man in enumerate([KeplerianImpulsiveMan(_date(ep + 10**9, "UTC"), da=1000.0), KeplerianContinuousMan(_date(ep + 10**9, "UTC"), timedelta(seconds=60), da=1000.0)]):
+            sv = _sv0()
+            sv.maneuvers = [man]
+            try:
+                txt = dumps(sv, fmt=fmt)
+                real = "zeros" if not any(loads(txt).maneuvers[0]._dv) else "dv"
+            except Exception as e:
+                real = f"err dump {type(e).__name__}"
+            out.append((f"c13 ext kepl {k}", real, {"op": "kepl", "fmt": fmt, "continuous": k}))
+    return out
+
+
 def correspondence(ctx):
     out = Outcome()
     rng = ctx.rng
     n = {"opm": ctx.n(60, 1500), "omm": ctx.n(40, 1000), "oem": ctx.n(40, 1000), "tdm": ctx.n(50, 1200)}
     cases = []
+    ext = ext_cases(rng, ctx.n(30, 600))
     for t, k in n.items():
         for i in range(k):
-            spec = GENS[t](rng)
+            spec = _model_domain(GENS[t](rng))
             via = "config" if i % 5 == 4 else "arg"
             lines, reals = corr_case(out, spec, via, t)
             cases.append((spec, via, lines, reals))
-    model = core.Driver().run([l for c in cases for l in c[2]])
+    model = core.Driver().run([l for c in cases for l in c[2]] + [e[0] for e in ext])
+    for (line, real, inp), m in zip(ext, model[len(model) - len(ext):]):
+        out.count(key=line, nontrivial=True, kind="ext " + inp["op"], result=real.split(" ")[0] if real.startswith("err") or inp["op"] in ("form", "kepl") else "value")
+        if m != real:
+            out.fail("ccsds-model-ext", f"model and implementation differ on `ext {inp['op']}`", inp, observed=real, expected=m)
     k = 0
     for spec, via, lines, reals in cases:
         for line, real in zip(lines, reals):
